@@ -1,6 +1,7 @@
 package core
 
 import (
+	"go/token"
 	"golang.org/x/tools/go/ssa"
 )
 
@@ -167,4 +168,38 @@ func (fs *FactSet) Leaves(v ssa.Value, at ssa.Instruction) []Leaf {
 	}
 	walk(v, fs.At(at.Block()), nil)
 	return out
+}
+
+// LoadSource looks through a load of a local cell to the value stored to it
+// earlier in the same block with no call or other store to the cell in
+// between (the `err = f(); if err != nil` idiom on a named result).  It
+// returns v itself when that does not apply.
+func LoadSource(v ssa.Value) ssa.Value {
+	ld, ok := v.(*ssa.UnOp)
+	if !ok || ld.Op != token.MUL {
+		return v
+	}
+	cell, ok := ld.X.(*ssa.Alloc)
+	if !ok {
+		return v
+	}
+	b := ld.Block()
+	at := -1
+	for i, in := range b.Instrs {
+		if in == ssa.Instruction(ld) {
+			at = i
+		}
+	}
+	for i := at - 1; i >= 0; i-- {
+		switch x := b.Instrs[i].(type) {
+		case *ssa.Store:
+			if x.Addr == ssa.Value(cell) {
+				return x.Val
+			}
+		case *ssa.Call, *ssa.RunDefers, *ssa.Defer, *ssa.Go:
+			// the cell may be written through an escaped pointer
+			return v
+		}
+	}
+	return v
 }
